@@ -182,6 +182,8 @@ def run(prog: Program, col: Collector, tier: str, refs: Optional[Refs] = None, c
     # ---------------------------------------------------------------- R15.7 sibling implementations
     col.rule("R15.7", "an array-library function registered for an op is that op's counterpart", floor=25)
     _siblings(prog, col, refs, cat)
+    from . import numerics
+    numerics.run(prog, col, refs, cat)
     return col
 
 
